@@ -291,6 +291,9 @@ func harnessErr(c *Case, err error) Result {
 }
 
 func evalEq(c *Case) Result {
+	if c.AddDefs && !strings.HasPrefix(c.Q[1], defs) {
+		c.Q[1] = defs + c.Q[1]
+	}
 	lc, err := compile(c.Q[0])
 	if err != nil {
 		return harnessErr(c, err)
@@ -309,6 +312,14 @@ func evalEq(c *Case) Result {
 	r, rt := runAll(rc, in2)
 	res := Result{ID: c.ID, OK: true}
 	res.Class = classOf(l)
+	if n := len(r); n > 0 && r[n-1].isErr && strings.Contains(r[n-1].err, "_norm: type") {
+		// the reduction has no defined value (a path navigates into a scalar of the value it is resolved against)
+		res.Class = "inconclusive-norm"
+		if ok, what := cmpStreams(l, l); !ok {
+			res.OK, res.What, res.Detail = false, what, "operator gives "+showOuts(l)
+		}
+		return res
+	}
 	if ok, what := cmpStreams(l, r); !ok || lt != rt {
 		res.OK = false
 		res.What = what
